@@ -150,8 +150,9 @@ def run(ctx):
     tmp = tlc.mktmp('c11-')
     recs = []
     try:
-        for wi, names in enumerate(['fancy', 'plain', 'fancy']):
-            w = W.default_world(ctx.seed + wi, names=names, hidden_root=(wi == 2))
+        variants = ['fancy', 'plain', 'fancy'] if ctx.tier == 'quick' else ['fancy', 'plain', 'fancy'] * 4
+        for wi, names in enumerate(variants):
+            w = W.default_world(ctx.seed + wi, names=names, hidden_root=(wi % 3 == 2))
             d = os.path.join(tmp, f'db{wi}')
             W.build_db(d, w)
             db = ReferenceDatabase.load_from_dir(d)
